@@ -274,8 +274,8 @@ func init() {
 				do(3, []int{0, 1}, false, -1, -1)
 			case 1:
 				do(3, []int{0, 1, 3}, true, -1, st.Bound)
-			case 2:
-				do(4, []int{0, 1, 2}, false, -1, st.Bound)
+			case 2: // every digraph on 4 vertices over two weights (3^12 graphs)
+				do(4, []int{1, 2}, false, -1, st.Bound)
 			case 3:
 				do(5, []int{1, 2}, false, 5, st.Bound)
 			case 4:
